@@ -106,8 +106,41 @@ package statuschecker
 //@   loop 0 invariant 0 <= rangeindex + 1 && rangeindex + 1 <= len(pendingCertificates) && len(pendingCertificates) == nOpenCerts && off(pendingCertificates) == 0 && seq(pendingCertificates) == openCerts
 //@   loop 0 invariant forall(k, 0, len(pendingCertificates), pendingCertificates[k] != nil) && forall(k, 0, len(pendingCertificates), forall(j, 0, len(pendingCertificates), k != j ==> pendingCertificates[k] != pendingCertificates[j] && pendingCertificates[k].CertificateID != pendingCertificates[j].CertificateID))
 //@   loop 0 invariant forall(k, rangeindex + 1, len(pendingCertificates), pendingCertificates[k].Status == old(openCerts[k].Status) && storedStatus[pendingCertificates[k].CertificateID] == pendingCertificates[k].Status)
-//@   loop 0 invariant rangeindex >= 0 ==> pendingCertificates[rangeindex].Status == aggStatus[pendingCertificates[rangeindex].CertificateID]
 //@   loop 0 invariant forall(k, 0, rangeindex + 1, pendingCertificates[k].Status == aggStatus[pendingCertificates[k].CertificateID])
 //@   loop 0 invariant forall(k, 0, rangeindex + 1, storedStatus[pendingCertificates[k].CertificateID] == aggStatus[pendingCertificates[k].CertificateID])
 //@   loop 0 invariant !thereArePendingCerts ==> forall(k, 0, rangeindex + 1, aggStatus[pendingCertificates[k].CertificateID] != agglayertypes.Pending && aggStatus[pendingCertificates[k].CertificateID] != agglayertypes.Candidate && aggStatus[pendingCertificates[k].CertificateID] != agglayertypes.Proven)
 //@   loop 0 invariant appearsNewInErrorCert ==> exists(k, 0, rangeindex + 1, old(openCerts[k].Status) != agglayertypes.InError && aggStatus[pendingCertificates[k].CertificateID] == agglayertypes.InError)
+
+// ---- recovery after a lost or stale database (C13): the action decided by process() is carried out on the store.
+// A certificate known only to the Agglayer is rebuilt from its header: identity, verdict and exit roots are copied, the
+// block range is decoded from the metadata word the node itself wrote into the certificate (codec proved in
+// aggsender/types).
+//@ func newCertificateInfoFromAgglayerCertHeader
+//@   props C13
+//@   requires c != nil ==> forall(i, 0, 32, 0 <= hb(c.Metadata)[i] && hb(c.Metadata)[i] <= 255)
+//@   modifies nothing
+//@   ensures[nothing-from-nothing] c == nil ==> result0 == nil && result1 == nil
+//@   ensures[error-means-nothing] result1 != nil ==> result0 == nil
+//@   ensures[unsupported-metadata-refused] (c != nil && hb(c.Metadata)[0] > 2) ==> result1 != nil
+//@   ensures[identity-and-verdict-copied] (c != nil && result1 == nil) ==> result0 != nil && fresh(result0) && result0.Header != nil && fresh(result0.Header) && result0.Header.Height == c.Height && result0.Header.CertificateID == c.CertificateID && result0.Header.NewLocalExitRoot == c.NewLocalExitRoot && result0.Header.Status == c.Status && result0.Header.PreviousLocalExitRoot == c.PreviousLocalExitRoot
+//@   ensures[range-from-the-metadata] (c != nil && result1 == nil && (hb(c.Metadata)[0] == 1 || hb(c.Metadata)[0] == 2)) ==> result0.Header.FromBlock == beVal(hb(c.Metadata), 1, 8) && result0.Header.ToBlock == (beVal(hb(c.Metadata), 1, 8) + beVal(hb(c.Metadata), 9, 4)) % 18446744073709551616 && result0.Header.CreatedAt == beVal(hb(c.Metadata), 13, 4)
+
+//@ func (c *certStatusChecker) updateLocalStorageWithAggLayerCert
+//@   props C13
+//@   requires c != nil && c.log != nil && c.storage != nil
+//@   requires aggLayerCert != nil ==> forall(i, 0, 32, 0 <= hb(aggLayerCert.Metadata)[i] && hb(aggLayerCert.Metadata)[i] <= 255)
+//@   modifies savedCount, lastSaved
+//@   ensures[nothing-from-nothing] aggLayerCert == nil ==> result0 == nil && result1 == nil && savedCount == old(savedCount)
+//@   ensures[saved-once-with-the-agglayers-identity-and-verdict] (aggLayerCert != nil && result1 == nil) ==> savedCount == old(savedCount) + 1 && lastSaved.Height == aggLayerCert.Height && lastSaved.CertificateID == aggLayerCert.CertificateID && lastSaved.NewLocalExitRoot == aggLayerCert.NewLocalExitRoot && lastSaved.Status == aggLayerCert.Status && lastSaved.PreviousLocalExitRoot == aggLayerCert.PreviousLocalExitRoot
+//@   ensures[error-saves-nothing] result1 != nil ==> savedCount == old(savedCount) && lastSaved == old(lastSaved)
+
+//@ func (c *certStatusChecker) executeInitialStatusAction
+//@   props C13
+//@   requires c != nil && c.log != nil && c.storage != nil && action != nil
+//@   requires action.action == InitialStatusActionUpdateCurrentCert ==> localCert != nil && action.cert != nil
+//@   requires action.cert != nil ==> forall(i, 0, 32, 0 <= hb(action.cert.Metadata)[i] && hb(action.cert.Metadata)[i] <= 255)
+//@   modifies localCert.Status, localCert.UpdatedAt, storedStatus, statusWrites, savedCount, lastSaved
+//@   ensures[nothing-to-do-writes-nothing] action.action == InitialStatusActionNone ==> result == nil && savedCount == old(savedCount) && statusWrites == old(statusWrites)
+//@   ensures[update-follows-the-agglayer] (action.action == InitialStatusActionUpdateCurrentCert && result == nil) ==> localCert.Status == action.cert.Status && savedCount == old(savedCount) && (old(localCert.Status) != action.cert.Status ==> storedStatus == upd(old(storedStatus), localCert.CertificateID, action.cert.Status))
+//@   ensures[insert-saves-the-agglayers-certificate] (action.action == InitialStatusActionInsertNewCert && result == nil && action.cert != nil) ==> savedCount == old(savedCount) + 1 && lastSaved.Height == action.cert.Height && lastSaved.CertificateID == action.cert.CertificateID && lastSaved.Status == action.cert.Status && lastSaved.NewLocalExitRoot == action.cert.NewLocalExitRoot
+//@   ensures[unknown-action-refused] (action.action != InitialStatusActionNone && action.action != InitialStatusActionUpdateCurrentCert && action.action != InitialStatusActionInsertNewCert) ==> result != nil && savedCount == old(savedCount) && statusWrites == old(statusWrites)
